@@ -366,6 +366,23 @@ func r17GuardClass(c *core.Ctx, p *load.Program, fn *ssa.Function, g *ssa.If, re
 		return
 	}
 	info := classifyErr(ev)
+	// the nil side hands over to another method of the same receiver, whose own guard answers the closed handle
+	if cl := callProducing(ev); cl != nil && !info.only("ErrClosed", false) {
+		if callee := ssax.StaticCallee(cl); callee != nil && len(cl.Call.Args) > 0 && cl.Call.Args[0] == recv && callee != fn {
+			if g2 := nonNilGuardOfMethod(callee, field); g2 != nil {
+				c2, v2 := ssax.StripNot(g2.Cond, true)
+				_, eq2, _ := ssax.NilTest(c2)
+				ns := g2.Block().Succs[1]
+				if eq2 == v2 {
+					ns = g2.Block().Succs[0]
+				}
+				if _, ev2, ok := blockReturnsError(ns); ok && classifyErr(ev2).only("ErrClosed", false) {
+					c.OK("R17.3", key, p.Pos(g.Pos()), "on the closed side the method delegates to "+fname(callee)+", whose guard returns an ErrClosed-class error")
+					return
+				}
+			}
+		}
+	}
 	if info.only("ErrClosed", false) {
 		c.OK("R17.3", key, p.Pos(g.Pos()), "closed handle returns an ErrClosed-class error "+info.String())
 	} else {
@@ -665,4 +682,29 @@ func r17NoPool(c *core.Ctx, p *load.Program, fns []*ssa.Function) {
 			}
 		})
 	}
+}
+
+
+// nonNilGuardOfMethod: the first If of fn's entry block chain that nil-tests the field `field` of the receiver.
+func nonNilGuardOfMethod(fn *ssa.Function, field string) *ssa.If {
+	if fn == nil || fn.Blocks == nil {
+		return nil
+	}
+	recv := recvParam(fn)
+	if recv == nil {
+		return nil
+	}
+	b := fn.Blocks[0]
+	for i := 0; i < 3 && b != nil; i++ {
+		ifi, ok := b.Instrs[len(b.Instrs)-1].(*ssa.If)
+		if !ok {
+			return nil
+		}
+		cond, _ := ssax.StripNot(ifi.Cond, true)
+		if x, _, isNil := ssax.NilTest(cond); isNil && isLoadOfField(x, recv, field) {
+			return ifi
+		}
+		return nil
+	}
+	return nil
 }
